@@ -319,9 +319,20 @@ def optrig_n07(st, op):
     return False
 
 
-OPTRIG = {"C04-N07": ("sparse", optrig_n07), "C04-N05": ("sparse", optrig_n05), "C04-N06": ("sparse", optrig_n06), "C04-N03": ("dense", optrig_n03), "C04-N04": ("sparse", optrig_n04), "A-13": ("sparse", optrig_a13), "C04-N01": ("sparse", optrig_n01), "C04-N02": ("sparse", optrig_n02),
-          "A-14": ("sparse", optrig_a14), "A-15": ("dense", optrig_a15), "A-16": ("dense", optrig_a16),
-          "A-17": ("dense", optrig_a17)}
+# input classes by finding id.  OPTRIG = the OPEN findings only (used for attribution and kept out of the unattributed streams);
+# FIXED_CLASSES = input classes of repaired defects: generated on purpose (regression streams) and never attributed.
+ALLCLASS = {"C04-N07": ("sparse", optrig_n07), "C04-N05": ("sparse", optrig_n05), "C04-N06": ("sparse", optrig_n06),
+            "C04-N03": ("dense", optrig_n03), "C04-N04": ("sparse", optrig_n04), "A-13": ("sparse", optrig_a13),
+            "C04-N01": ("sparse", optrig_n01), "C04-N02": ("sparse", optrig_n02), "A-14": ("sparse", optrig_a14),
+            "A-15": ("dense", optrig_a15), "A-16": ("dense", optrig_a16), "A-17": ("dense", optrig_a17)}
+OPEN_IDS = ("A-16", "C04-N04")
+OPTRIG = {fid: ALLCLASS[fid] for fid in OPEN_IDS}
+FIXED_CLASSES = {fid: v for fid, v in ALLCLASS.items() if fid not in OPEN_IDS}
+
+
+def class_hits(st, op, classes):
+    """ids (open or repaired) whose input class the operation belongs to"""
+    return [fid for fid, (cls, f) in ALLCLASS.items() if cls in classes and f(st, op)]
 
 
 def op_triggers(st, op, classes):
